@@ -658,6 +658,108 @@ def _replay_mech(entry):
 AUX = [closed_mechanic_runs]
 AUX_REPLAY = {"closed_mechanic_runs": _replay_mech}
 
+def launcher_stop(sl):
+    """the real ProcessLauncher.stop on 1..2 nodes whose processes are alive, already gone, vanish while being stopped or need a kill:
+    every node is handled exactly once (telemetry detached around the stop if the process was there; system metrics stored in any case)"""
+    from esrally.mechanic import launcher
+
+    n = sl["nodes"]
+    with_store = bool(fresh_bool("metrics_store_given"))
+    calls = []
+    ALIVE, GONE, VANISHES_ON_TERMINATE, NEEDS_KILL, VANISHES_ON_KILL = range(5)
+    fate = [concrete(fresh_int("fate_of_process_%d" % i, 0, 4)) for i in range(n)]
+
+    class NoSuchProcess(Exception):
+        pass
+
+    class TimeoutExpired(Exception):
+        pass
+
+    class Proc:
+        def __init__(self, pid):
+            self.pid = pid
+            self.i = pid - 100
+            if fate[self.i] == GONE:
+                raise NoSuchProcess()
+
+        def terminate(self):
+            calls.append(("terminate", self.i))
+            if fate[self.i] == VANISHES_ON_TERMINATE:
+                raise NoSuchProcess()
+
+        def wait(self, t):
+            if fate[self.i] in (NEEDS_KILL, VANISHES_ON_KILL):
+                raise TimeoutExpired()
+
+        def kill(self):
+            calls.append(("kill", self.i))
+            if fate[self.i] == VANISHES_ON_KILL:
+                raise NoSuchProcess()
+
+    class Psutil:
+        Process = Proc
+
+    Psutil.NoSuchProcess = NoSuchProcess
+    Psutil.TimeoutExpired = TimeoutExpired
+
+    class Tel:
+        def __init__(self, i):
+            self.i = i
+
+        def detach_from_node(self, node, running):
+            calls.append(("detach", self.i, running))
+
+        def store_system_metrics(self, node, store):
+            calls.append(("store_system_metrics", self.i))
+
+    class TelNs:
+        @staticmethod
+        def add_metadata_for_node(store, node_name, host_name):
+            calls.append(("metadata", node_name))
+
+    class Watch:
+        def start(self):
+            pass
+
+        def split_time(self):
+            return 1.0
+
+    class Clk:
+        @staticmethod
+        def stop_watch():
+            return Watch()
+
+    class Node:
+        def __init__(self, i):
+            self.node_name, self.host_name, self.pid, self.telemetry = "node-%d" % i, "host", 100 + i, Tel(i)
+
+    nodes = [Node(i) for i in range(n)]
+    pl = launcher.ProcessLauncher(actors.Cfg(), clock=Clk)
+    with shadowed(launcher, (), extra={"psutil": Psutil, "telemetry": TelNs}):
+        try:
+            stopped = pl.stop(nodes, object() if with_store else None)
+        except Exception as e:  # noqa: BLE001
+            core.note("stop raised", repr(e))
+            observe("stopping does not fail whatever happened to the processes", False)
+            return
+    core.trace("calls", len(calls))
+    core.note("fates", fate)
+    core.note("calls", calls)
+    for i in range(n):
+        mine = [c for c in calls if c[1] == i]
+        was_there = fate[i] != GONE
+        observe("node %d: a process that is there is told to terminate exactly once, one that is gone never" % i, mine.count(("terminate", i)) == (1 if was_there else 0))
+        observe("node %d: killed exactly when it did not terminate in time" % i, mine.count(("kill", i)) == (1 if fate[i] in (NEEDS_KILL, VANISHES_ON_KILL) else 0))
+        observe("node %d: telemetry detached before and after the stop iff the process was there" % i,
+                [c[2] for c in mine if c[0] == "detach"] == ([True, False] if was_there else []))
+        observe("node %d: system metrics are stored exactly once whenever a metrics store is given, also for a node whose process is already gone" % i,
+                mine.count(("store_system_metrics", i)) == (1 if with_store else 0))
+        if with_store and was_there:
+            observe("node %d: system metrics stored after the node was stopped" % i, mine.index(("store_system_metrics", i)) > mine.index(("detach", i, False)))
+        observe("node %d: reported as stopped iff Rally ended the process" % i, (nodes[i] in stopped) == (fate[i] in (ALIVE, NEEDS_KILL)))
+    observe("nodes are handled in order, one after the other", [c[1] for c in calls if c[0] != "metadata"] == sorted(c[1] for c in calls if c[0] != "metadata"))
+
+
 READS = [mechanic.MechanicActor.receiveMsg_StartEngine, mechanic.MechanicActor.receiveMsg_NodesStarted, mechanic.MechanicActor.receiveMsg_StopEngine,
          mechanic.MechanicActor.receiveMsg_NodesStopped, mechanic.MechanicActor.receiveMsg_BenchmarkFailure, mechanic.MechanicActor.receiveMsg_PoisonMessage,
          mechanic.MechanicActor.receiveMsg_ChildActorExited, mechanic.MechanicActor.on_all_nodes_started, mechanic.MechanicActor.on_all_nodes_stopped,
@@ -684,5 +786,8 @@ HARNESSES = [
             doc="daemon joins and departures in every dispatcher state"),
     Harness("node_start_stop", node_start_stop, "symbolic", lambda tier: [{"stop": h} for h in ("StopNodes", "ActorExitRequest")], reads=READS, stubs=STUBS,
             bounds={"nodes per host": "1..2", "start failure": "none / supply / provision / launch"}, doc="node start, failure reporting, stop order, stop exactly once"),
+    Harness("launcher_stop", launcher_stop, "bounded-exhaustive", lambda tier: [{"nodes": 1}, {"nodes": 2}], reads=READS,
+            stubs=["psutil (process alive / gone / vanishing on terminate / needing a kill / vanishing on kill)", "telemetry recorder", "stop watch"],
+            bounds={"nodes": "1..2", "fate per process": 5, "metrics store": "given or not"}, doc="ProcessLauncher.stop: every node exactly once, system metrics in any case"),
 ]
 BUDGET = {"quick": 150, "thorough": 900}
